@@ -232,8 +232,11 @@ func c08Round(run *ev.Run, o c08One, buf gopacket.SerializeBuffer, rdec *c08Deco
 		default:
 			x.PayloadDescriptor = ipmi.PayloadDescriptorIPMI
 		}
+		// one hash instance serves both directions, as in a session
+		var shared hash.Hash
 		if hf != nil {
-			x.IntegrityAlgorithm = hf()
+			shared = hf()
+			x.IntegrityAlgorithm = shared
 		}
 		b1, ok := ser(&x, inner)
 		if !ok {
@@ -241,7 +244,21 @@ func c08Round(run *ev.Run, o c08One, buf gopacket.SerializeBuffer, rdec *c08Deco
 		}
 		var y ipmi.V2Session
 		if hf != nil {
-			y.IntegrityAlgorithm = hf()
+			y.IntegrityAlgorithm = shared
+		}
+		if hf != nil && x.Authenticated && o.Index%2 == 0 {
+			// a packet damaged in transit is decoded (and refused) in between; it must
+			// not disturb what follows
+			bad := append([]byte(nil), b1...)
+			bad[len(bad)-1-r.Intn(4)] ^= 1 << uint(r.Intn(8))
+			var junk ipmi.V2Session
+			junk.IntegrityAlgorithm = shared
+			safe(func() { junk.DecodeFromBytes(bad, gopacket.NilDecodeFeedback) })
+			run.Event("damaged-packets-decoded-in-between", 1)
+			if b1b, ok := ser(&x, inner); ok && !bytes.Equal(b1b, b1) {
+				viol("serialisation-differs-after-rejected-packet", fmt.Sprintf("the same value serialises to % x, and after a rejected packet went through the same integrity hash to % x", b1, b1b), ev.Hex(bad))
+				return
+			}
 		}
 		if !dec(&y, b1) {
 			return
